@@ -793,6 +793,40 @@ DefGlobalAveragePool(x) == DefGlobalPool(x) /\ DefReduce("ReduceMean", x, Spatia
 OnnxGlobalAveragePool(x) == OnnxReduce("ReduceMean", x, SpatialAxes(x), TRUE)
 
 ---------------------------------------------------------------------------
+(* Einsum without ellipsis.  The equation is given parsed: terms[k] is the    *)
+(* sequence of subscript labels (integers, e.g. character codes) of input k,  *)
+(* out the output labels, or implicit = TRUE for the form without "->",       *)
+(* whose output labels are those appearing exactly once, in sorted order.     *)
+RECURSIVE SortedSeq(_)
+SortedSeq(S) == IF S = {} THEN <<>> ELSE LET m == CHOOSE a \in S : \A b \in S : a <= b IN <<m>> \o SortedSeq(S \ {m})
+EinsumLabels(terms) == UNION {{terms[k][i] : i \in 1..Len(terms[k])} : k \in 1..Len(terms)}
+EinsumCount(terms, l) == SeqSum([k \in 1..Len(terms) |-> Cardinality({i \in 1..Len(terms[k]) : terms[k][i] = l})])
+EinsumImplicitOut(terms) == SortedSeq({l \in EinsumLabels(terms) : EinsumCount(terms, l) = 1})
+EinsumDim(ts, terms, l) ==
+  LET k == CHOOSE k \in 1..Len(terms) : \E i \in 1..Len(terms[k]) : terms[k][i] = l
+      i == CHOOSE i \in 1..Len(terms[k]) : terms[k][i] = l
+  IN ts[k].shape[i]
+DefEinsum(ts, terms, out) ==
+  /\ Len(ts) >= 1 /\ Len(terms) = Len(ts)
+  /\ \A k \in 1..Len(ts) : Len(terms[k]) = Rank(ts[k]) /\ ts[k].dtype = ts[1].dtype
+  \* every occurrence of a label has the same extent (no broadcasting of 1)
+  /\ \A k \in 1..Len(ts) : \A i \in 1..Len(terms[k]) : ts[k].shape[i] = EinsumDim(ts, terms, terms[k][i])
+  /\ \A i, j \in 1..Len(out) : i # j => out[i] # out[j]
+  /\ \A i \in 1..Len(out) : out[i] \in EinsumLabels(terms)
+OnnxEinsum(ts, terms, out) ==
+  LET contracted == SortedSeq(EinsumLabels(terms) \ {out[i] : i \in 1..Len(out)})
+      cdims == [j \in 1..Len(contracted) |-> EinsumDim(ts, terms, contracted[j])]
+      Pos(sq, l) == CHOOSE i \in 1..Len(sq) : sq[i] = l
+      F(idx) ==
+        LET G(acc, j) ==
+              LET ci == Unravel(j, cdims)
+                  Val(l) == IF \E i \in 1..Len(out) : out[i] = l THEN idx[Pos(out, l)] ELSE ci[Pos(contracted, l)]
+                  P(acc2, k) == acc2 * At(ts[k + 1], [i \in 1..Len(terms[k + 1]) |-> Val(terms[k + 1][i])])
+              IN acc + FoldN(P, Len(ts), 1)
+        IN FoldN(G, Prod(cdims), 0)
+  IN FromFn([i \in 1..Len(out) |-> EinsumDim(ts, terms, out[i])], ts[1].dtype, F)
+
+---------------------------------------------------------------------------
 (* Resize, mode = nearest: pure index arithmetic in exact rationals.         *)
 \* A scale is a pair [n, d] = n/d > 0.  With `sizes` the scale of an axis is
 \* out/in; with `scales` it is the given value and out = floor(in * scale).
@@ -1097,5 +1131,11 @@ OnnxEval(op, attrs, ins) ==
          G(DefDequantizeLinear(T(1), T(2), TOpt(3), A("axis", 1)), OnnxDequantizeLinear(T(1), T(2), TOpt(3), A("axis", 1)))
     [] op = "QuantizeLinear" -> IF ~Need(2) THEN Undefined ELSE
          G(DefQuantizeLinear(T(1), T(2), TOpt(3), A("axis", 1)), OnnxQuantizeLinear(T(1), T(2), TOpt(3), A("axis", 1)))
+    [] op = "Einsum" ->
+         \* the harness logs the parsed equation as pseudo-attributes _terms / _out / _implicit
+         IF N = 0 \/ ~AllPresent \/ ~AHas(attrs, "_terms") THEN Unmodelled ELSE
+         LET terms == A("_terms", <<>>)
+             out == IF A("_implicit", 0) = 1 THEN EinsumImplicitOut(terms) ELSE A("_out", <<>>)
+         IN G(DefEinsum(All, terms, out), OnnxEinsum(All, terms, out))
     [] OTHER -> Unmodelled
 =============================================================================
